@@ -40,6 +40,8 @@ BUILDS = {
             ("src/lib.rs", "verif_wire.rs"),
             ("src/lib.rs", "verif_values.rs"),
             ("src/lib.rs", "verif_msg.rs"),
+            ("src/strings.rs", "verif_strings.rs"),
+            ("src/attributes/stun/nonce.rs", "verif_nonce.rs"),
         ],
     },
     "agent": {
@@ -88,13 +90,19 @@ class Scratch:
         self.tgt_n = 0
 
     def create(self):
-        shutil.rmtree(self.base, ignore_errors=True)
-        os.makedirs(self.base)
+        if os.environ.get("VERIF_DEV"):
+            # development loop: keep the target dirs of the previous run
+            shutil.rmtree(self.src, ignore_errors=True)
+            shutil.rmtree(os.path.join(self.base, "agent-slice"), ignore_errors=True)
+            os.makedirs(self.base, exist_ok=True)
+        else:
+            shutil.rmtree(self.base, ignore_errors=True)
+            os.makedirs(self.base)
         subprocess.check_call(["rsync", "-a", "--exclude", "/target", "--exclude", ".git",
                                REPO + "/", self.src + "/"])
 
     def destroy(self):
-        if os.environ.get("VERIF_KEEP"):
+        if os.environ.get("VERIF_KEEP") or os.environ.get("VERIF_DEV"):
             print("scratch kept at", self.base)
             return
         shutil.rmtree(self.base, ignore_errors=True)
@@ -113,7 +121,7 @@ class Scratch:
             self.tgt_n += 1
             t = os.path.join(self.base, "tgt_%s_%d" % (build, self.tgt_n))
         tpl = self.template(build)
-        if tpl:
+        if tpl and not os.path.isdir(t):
             subprocess.call(["cp", "-a", "--reflink=auto", tpl, t])
         return t
 
@@ -208,7 +216,7 @@ def inject(scratch, builds):
             shutil.copy(src, os.path.join(ddir, hf))
             mod = hf[:-3]
             with open(apath, "a") as f:
-                f.write('\n#[cfg(kani)]\n#[path = "%s"]\nmod %s;\n' % (hf, mod))
+                f.write('\n#[cfg(kani)]\n#[path = "%s"]\npub(crate) mod %s;\n' % (hf, mod))
         # shared support files live in src/ (crate root) and are `#[path]`-included by harnesses
         sdir = os.path.join(cdir, "src")
         supports = []
@@ -311,6 +319,9 @@ def parse_log(h, lines, wall, timed_out, rc, logpath):
             r["detail"] = "covers satisfied %d of %d" % (r["covers_satisfied"], r["covers_total"])
         else:
             r["status"] = "pass"
+    elif "VERIFICATION:- FAILED" in txt and not r["failed_descriptions"] and r["checks_failed"] == 0:
+        r["status"] = "error"
+        r["detail"] = "CBMC ended without a verdict (FAILED with no failed check: killed by the memory cap or crashed)"
     elif "VERIFICATION:- FAILED" in txt:
         descs = r["failed_descriptions"]
         if descs and all("unwinding assertion" in d for d in descs):
@@ -433,10 +444,19 @@ def run_property(prop, harnesses, tier, meta, only=None, workers=None, mem_total
         for h in hs:
             first.setdefault(h.build, h)
         done = []
+        broken = {}
         for b, h in first.items():
-            if scratch.template(b) is None:
-                done.append(job(h))
+            hr = job(h)
+            done.append(hr)
+            if hr[1]["status"] == "build_error":
+                broken[b] = hr[1]
+            elif scratch.template(b) is None:
                 scratch.make_template(b)
+        for h in hs:
+            if h.build in broken and h is not first[h.build]:
+                r = dict(broken[h.build])
+                r["harness"] = h.name
+                done.append((h, r))
         rest = [h for h in hs if h not in [d[0] for d in done]]
         # long ones first
         rest.sort(key=lambda h: -h.timeout)
@@ -483,7 +503,12 @@ def run_property(prop, harnesses, tier, meta, only=None, workers=None, mem_total
                 r["verdict"] = "inconclusive"
                 if exit_code != 1:
                     exit_code = 2
-                out_lines.append("INCONCLUSIVE %s: %s %s (log %s)" % (h.name, st, r.get("detail", ""), r["log"]))
+                if st == "build_error" and any(l.startswith("INCONCLUSIVE build") for l in out_lines):
+                    pass
+                elif st == "build_error":
+                    out_lines.append("INCONCLUSIVE build of '%s' with the injected harnesses failed: %s" % (h.build, r.get("detail", "")))
+                else:
+                    out_lines.append("INCONCLUSIVE %s: %s %s" % (h.name, st, r.get("detail", "")))
                 if os.environ.get("VERIF_KEEP") is None:
                     # keep the tail of the log for diagnosis
                     keep = os.path.join(VERIF, "evidence", "logs")
